@@ -200,6 +200,8 @@ inductive Op where
   | removeSigner (id sg : Nat)
   | addPolicy (id p : Nat)
   | removePolicy (id p : Nat)
+  /-- the ledger moves on by `n` sequence numbers; no storage entry is touched -/
+  | advance (n : Nat)
   deriving DecidableEq, Repr
 
 def step (installOk : Nat → Bool) (s : State) : Op → Except RErr State
@@ -211,6 +213,7 @@ def step (installOk : Nat → Bool) (s : State) : Op → Except RErr State
   | .removeSigner id sg => removeSigner s id sg
   | .addPolicy id p => addPolicy installOk s id p
   | .removePolicy id p => removePolicy s id p
+  | .advance n => .ok { s with now := s.now + n }
 
 def next (installOk : Nat → Bool) (s : State) (o : Op) : State :=
   match step installOk s o with
